@@ -266,8 +266,11 @@ def x_parse_color(spec: str) -> tuple[int, int, int]:
         The older syntax isn't supported.
     """
     rgb = spec.partition(":")[2].split("/")
-    scale = len(rgb[0]) * 4  # One hex char -> 4 bits
-    uint_scale_max = (1 << scale) - 1
-    r, g, b = [int(component, 16) * 255 // uint_scale_max for component in rgb]
+    # Each component may have a different number of hex digits (1 to 4).
+    # One hex char -> 4 bits
+    r, g, b = [
+        int(component, 16) * 255 // ((1 << len(component) * 4) - 1)
+        for component in rgb
+    ]
 
     return (r, g, b)
